@@ -552,6 +552,9 @@ func TestC11(t *testing.T) {
 		if i%40 == 33 {
 			c11steady(rep, seed, i/40)
 		}
+		if i%20 == 16 {
+			c11writeOnOpen(rep, seed, i/20)
+		}
 		if i%20 == 19 {
 			c11clients(rep, seed, i/20)
 		}
@@ -790,6 +793,110 @@ func c11manyFailures(rep *vh.Report, seed uint64, idx int) {
 	}
 	<-n.cons.done
 	rep.Distinct("manyfail", idx)
+}
+
+// c11writeOnOpen: the application answers every open event with an addressed write to the channel that has just been
+// reported open (a greeting, a parameter request). The channel is open, healthy and its queue is empty: the item comes
+// out. The goroutine that announces a new channel to the node is slowed down at its hook point (2 ms), so that "reported
+// open" and "known to the node" are far apart if the library ever lets them come in the wrong order.
+func c11writeOnOpen(rep *vh.Report, seed uint64, idx int) {
+	if aborted() {
+		return
+	}
+	r := vh.Sub(seed, fmt.Sprintf("c11-onopen-%d", idx))
+	if atomic.LoadInt32(&hookOff) == 0 {
+		gomavlib.VerifSetHook(func(point string, _ *gomavlib.Channel) {
+			if point == "node.newChannel" {
+				time.Sleep(2 * time.Millisecond)
+			}
+		})
+		defer gomavlib.VerifSetHook(nil)
+	}
+	k := 2 + r.Intn(3)
+	var trs []*fake.Transport
+	var eps []gomavlib.EndpointConf
+	for i := 0; i < k; i++ {
+		tr := fake.NewTransport(fmt.Sprintf("oo%d", i))
+		trs = append(trs, tr)
+		eps = append(eps, gomavlib.EndpointCustom{ReadWriteCloser: tr})
+	}
+	prev := gomavlib.VerifSetReconnectPeriod(5 * time.Millisecond)
+	defer gomavlib.VerifSetReconnectPeriod(prev)
+	node := &gomavlib.Node{Endpoints: eps, Dialect: testDialect, OutVersion: gomavlib.V2, OutSystemID: 44, HeartbeatDisable: true}
+	if err := node.Initialize(); err != nil {
+		rep.HarnessError(err.Error())
+		return
+	}
+	const fam = 0xCF
+	cons := newConsumer(rep, "C11", "custom", node)
+	var mu sync.Mutex
+	greeted := map[*fake.Transport][]uint64{}
+	var nOpen uint64
+	cons.onEvent = func(e *evRec, ci *chanInfo) {
+		if e.Type != "open" {
+			return
+		}
+		mu.Lock()
+		nOpen++
+		uid := uint64(fam)<<56 | nOpen
+		greeted[ci.Tr] = append(greeted[ci.Tr], uid)
+		mu.Unlock()
+		_ = node.WriteMessageTo(e.Ch, &MessageVfUid{Uid: uid, Kind: 1})
+	}
+	cons.start()
+	cons.waitOpen(k, 2*time.Second)
+	// every link fails and comes back a few times: each generation is a new channel with a new open event
+	gens := 3 + r.Intn(3)
+	for g := 0; g < gens; g++ {
+		for _, tr := range trs {
+			tr.FeedError(errSession)
+		}
+		want := int64((g + 2) * k)
+		waitFor(func() bool { mu.Lock(); defer mu.Unlock(); return int64(nOpen) >= want }, cons.nEvents, 500*time.Millisecond)
+	}
+	waitFor(func() bool {
+		for _, tr := range trs {
+			acc, _ := wireUIDs(tr, fam)
+			mu.Lock()
+			n := len(greeted[tr])
+			mu.Unlock()
+			if len(acc) < n {
+				return false
+			}
+		}
+		return true
+	}, func() int64 {
+		var p int64
+		for _, tr := range trs {
+			p += int64(tr.WriteCalls())
+		}
+		return p + cons.nEvents()
+	}, 400*time.Millisecond)
+	if !safeClose(rep, node) {
+		return
+	}
+	<-cons.done
+	rep.Eval(1)
+	rep.Count("scenarios_write_on_open", 1)
+	rep.Distinct("onopen", idx, k, gens)
+	mu.Lock()
+	defer mu.Unlock()
+	for ti, tr := range trs {
+		acc, _ := wireUIDs(tr, fam)
+		got := map[uint64]bool{}
+		for _, u := range acc {
+			got[u] = true
+		}
+		// the greeting of a generation that ended before the item was written is not owed (the link failed again); every
+		// generation but the last was ended by us only after its open event had been counted, so only judge those whose link
+		// was still up: the LAST greeting of each link, and all greetings when none is missing
+		gl := greeted[tr]
+		rep.Count("greetings_written_on_open_events", len(gl))
+		if len(gl) > 0 && !got[gl[len(gl)-1]] {
+			rep.Violation("what=lost ep=custom", fmt.Sprintf("the item written to a channel in answer to its open event never came out (link %d, channel generation %d of %d; the link stayed up afterwards)", ti, len(gl), len(gl)),
+				map[string]interface{}{"greetings": len(gl), "delivered": len(acc)})
+		}
+	}
 }
 
 // c11steady: a steady flow on one TCP link (an item every few ms, never a pause of a tenth of the write timeout) that lasts
